@@ -129,7 +129,7 @@ Qed.
 
 (* ---------------------------------------------------------------- one step of the literal body reader *)
 
-Ltac ub := unfold is_quote, is_bprefix, is_tws, QS, QD, BS, TAB, NL, CR, SP, UNI_MAX, LP, RP, CB, MINUS, HASH, LBR, LT in *.
+Ltac ub := unfold is_quote, is_bprefix, is_tws, QS, QD, BS, TAB, NL, CR, SP, UNI_MAX, LP, RP, CB, MINUS, HASH, LBR, LT, DOLLAR, BAR in *.
 
 Lemma quote_cases : forall q, is_quote q = true -> q = QS \/ q = QD.
 Proof. intros q H. ub. lia. Qed.
@@ -448,7 +448,8 @@ Section Seq.
   Qed.
 
   (* ---- shape of a whole literal ---- *)
-  Definition head_ok (s : str) : Prop := starts_with LBR s = false /\ starts_with HASH s = false.
+  Definition head_ok (s : str) : Prop :=
+    starts_with LBR s = false /\ starts_with HASH s = false /\ starts_with DOLLAR s = false /\ starts_with BAR s = false.
   Definition good (r : str) : Prop :=
     hd_ns r = true /\ last_ns r = true /\ mem NL r = false /\ ends_with BS r = false /\ head_ok r.
 
@@ -469,6 +470,8 @@ Section Seq.
     - rewrite !mem_app. cbn [mem existsb]. rewrite Q3. fold (mem NL (flat_map (esc printable isb q) x ++ [q])).
       rewrite mem_app, Hb. cbn [mem existsb]. rewrite Q3. destruct isb; reflexivity.
     - rewrite app_comm_cons, app_assoc, ends_with_last. exact Q2.
+    - destruct isb; [reflexivity|]. destruct (quote_cases q Hq) as [E|E]; rewrite E; reflexivity.
+    - destruct isb; [reflexivity|]. destruct (quote_cases q Hq) as [E|E]; rewrite E; reflexivity.
     - destruct isb; [reflexivity|]. destruct (quote_cases q Hq) as [E|E]; rewrite E; reflexivity.
     - destruct isb; [reflexivity|]. destruct (quote_cases q Hq) as [E|E]; rewrite E; reflexivity.
   Qed.
@@ -498,10 +501,10 @@ Proof. intros ls [H1 H2]. split; [exact H1|]. eapply Forall_impl; [|exact H2]. i
 
 Lemma line_ok_of : forall l s, mem NL l = false -> strip l = s -> s <> [] -> ends_with BS s = false -> head_ok s ->
   line_ok' l.
-Proof. intros l s H1 H2 H3 H4 H5. unfold line_ok', line_ok. rewrite H2. repeat split; try assumption; apply H5. Qed.
+Proof. intros l s H1 H2 H3 H4 H5. unfold line_ok', line_ok. rewrite H2. split; [repeat split; assumption | exact H5]. Qed.
 
 Lemma head_ok_lp : forall r, head_ok (LP :: r).
-Proof. intro r. split; reflexivity. Qed.
+Proof. intro r. repeat split. Qed.
 
 Lemma head_ok_app : forall r t, r <> [] -> head_ok r -> head_ok (r ++ t).
 Proof. intros [|c r] t H1 H2; [contradiction | exact H2]. Qed.
@@ -774,7 +777,8 @@ Qed.
 
 Lemma digit_not_special : forall c, is_digit c = true ->
   (c =? LP) = false /\ is_quote c = false /\ is_bprefix c = false /\ (c =? MINUS) = false /\ is_tws c = false
-  /\ is_word c = true /\ is_space c = false /\ c <> NL /\ c <> BS /\ c <> LBR /\ c <> HASH /\ c <> LT.
+  /\ is_word c = true /\ is_space c = false /\ c <> NL /\ c <> BS /\ c <> LBR /\ c <> HASH /\ c <> LT
+  /\ c <> DOLLAR /\ c <> BAR.
 Proof. intros c H. unfold is_digit, is_word, is_space in *. ub. repeat split; lia. Qed.
 
 (* ---------------------------------------------------------------- the parser's sniffers stay silent *)
@@ -797,7 +801,7 @@ Qed.
 
 Lemma unsniffed_digits : forall d r, is_digit d = true -> forallb is_digit r = true -> unsniffed (d :: r).
 Proof.
-  intros d r Hd Hr. destruct (digit_not_special d Hd) as (_ & _ & _ & _ & _ & Hw & _ & _ & _ & H1 & _ & H2).
+  intros d r Hd Hr. destruct (digit_not_special d Hd) as (_ & _ & _ & _ & _ & Hw & _ & _ & _ & H1 & _ & H2 & _).
   apply N.eqb_neq in H1, H2. repeat split.
   - unfold repl_match. destruct r; [reflexivity|]. rewrite H1. reflexivity.
   - exact H2.
@@ -907,7 +911,7 @@ Section Values.
     intro z.
     assert (P : forall n, good (dec_N n) /\ unsniffed (dec_N n) /\ good (MINUS :: dec_N n)).
     { intro n. destruct (dec_N_shape n) as (d & r & E & Hd & Hr). rewrite E.
-      destruct (digit_not_special d Hd) as (_ & _ & _ & _ & _ & _ & D7 & D8 & D9 & D10 & D11 & _).
+      destruct (digit_not_special d Hd) as (_ & _ & _ & _ & _ & _ & D7 & D8 & D9 & D10 & D11 & _ & D13 & D14).
       assert (Hall : forall x, In x (d :: r) -> is_digit x = true).
       { intros x [Hx|Hx]; [subst; exact Hd | exact (proj1 (forallb_forall _ _) Hr x Hx)]. }
       assert (Hlast : last_ns (d :: r) = true /\ mem NL (d :: r) = false /\ ends_with BS (d :: r) = false).
@@ -927,7 +931,9 @@ Section Values.
       { repeat split; try assumption.
         - cbn. rewrite D7. reflexivity.
         - cbn. apply N.eqb_neq. exact D10.
-        - cbn. apply N.eqb_neq. exact D11. }
+        - cbn. apply N.eqb_neq. exact D11.
+        - cbn. apply N.eqb_neq. exact D13.
+        - cbn. apply N.eqb_neq. exact D14. }
       split; [exact G|]. split; [apply unsniffed_digits; assumption|].
       repeat split.
       - change (MINUS :: d :: r) with ([MINUS] ++ d :: r). apply last_ns_app. exact L1.
